@@ -78,5 +78,42 @@ pub open spec fn stored(vm: &VM, line: &[u8]) -> int {
 //@end
 //@end
 
+// assumed contract, discharged by Kani unit l0_set_byte_reg
+#[verifier::external_body]
+pub fn set_byte_reg(vm: &mut VM, reg: ByteReg, val: u8)
+    ensures final(vm).mem == old(vm).mem,
+        final(vm).arch.flag == old(vm).arch.flag, final(vm).arch.sp == old(vm).arch.sp, final(vm).arch.bp == old(vm).arch.bp,
+        final(vm).arch.si == old(vm).arch.si, final(vm).arch.di == old(vm).arch.di, final(vm).arch.ip == old(vm).arch.ip,
+        final(vm).arch.cs == old(vm).arch.cs, final(vm).arch.ds == old(vm).arch.ds, final(vm).arch.ss == old(vm).arch.ss, final(vm).arch.es == old(vm).arch.es,
+        final(vm).arch.ax == (match reg { ByteReg::AL => ((old(vm).arch.ax / 256) * 256 + val) as u16, ByteReg::AH => ((old(vm).arch.ax % 256) + val * 256) as u16, _ => old(vm).arch.ax }),
+        final(vm).arch.bx == (match reg { ByteReg::BL => ((old(vm).arch.bx / 256) * 256 + val) as u16, ByteReg::BH => ((old(vm).arch.bx % 256) + val * 256) as u16, _ => old(vm).arch.bx }),
+        final(vm).arch.cx == (match reg { ByteReg::CL => ((old(vm).arch.cx / 256) * 256 + val) as u16, ByteReg::CH => ((old(vm).arch.cx % 256) + val * 256) as u16, _ => old(vm).arch.cx }),
+        final(vm).arch.dx == (match reg { ByteReg::DL => ((old(vm).arch.dx / 256) * 256 + val) as u16, ByteReg::DH => ((old(vm).arch.dx % 256) + val * 256) as u16, _ => old(vm).arch.dx }),
+{ unimplemented!() }
+
+pub open spec fn first_or_0(line: Seq<u8>) -> u8 { if line.len() > 0 { line[0] } else { 0u8 } }
+pub open spec fn next_line(inp: &InLog) -> Seq<u8> { if inp.lines.len() > 0 { inp.lines[0] } else { Seq::<u8>::empty() } }
+
+//@fn src/driver/interrupts.rs int_21
+//@contract
+    ensures
+        // AH=2: writes the character in DL and returns it in AL; nothing else changes
+        ah == 2 ==> final(verif_log).entries =~= old(verif_log).entries.push(seq![(old(vm).arch.dx % 256) as u64])
+            && final(vm).arch.ax == ((old(vm).arch.ax / 256) * 256 + old(vm).arch.dx % 256) as u16
+            && final(vm).mem == old(vm).mem && final(verif_in).lines == old(verif_in).lines,
+        // AH=1: AL = first byte of the next input line, 0 at end of input (a read error is reported and changes nothing)
+        ah == 1 ==> final(vm).mem == old(vm).mem
+            && (final(vm).arch.ax == ((old(vm).arch.ax / 256) * 256 + first_or_0(next_line(old(verif_in)))) as u16
+                || (final(vm).arch.ax == old(vm).arch.ax && final(verif_in).lines == old(verif_in).lines && final(verif_log).entries.len() == old(verif_log).entries.len() + 1)),
+        // any other AH: nothing at all
+        ah != 1 && ah != 2 && ah != 0xA ==> final(vm).arch == old(vm).arch && final(vm).mem == old(vm).mem
+            && final(verif_log).entries == old(verif_log).entries && final(verif_in).lines == old(verif_in).lines,
+        // every AH: only AX can change among the registers
+        final(vm).arch.bx == old(vm).arch.bx, final(vm).arch.cx == old(vm).arch.cx, final(vm).arch.dx == old(vm).arch.dx,
+        final(vm).arch.flag == old(vm).arch.flag, final(vm).arch.sp == old(vm).arch.sp, final(vm).arch.ds == old(vm).arch.ds,
+        final(vm).arch.es == old(vm).arch.es, final(vm).arch.ss == old(vm).arch.ss, final(vm).arch.cs == old(vm).arch.cs,
+        final(vm).arch.si == old(vm).arch.si, final(vm).arch.di == old(vm).arch.di, final(vm).arch.bp == old(vm).arch.bp,
+//@end
+
 } // verus!
 fn main() {}
